@@ -4,6 +4,8 @@
 cd /verif
 for d in seeded/*/; do
   name=$(basename $d); [ "$name" = "_superseded" ] && continue
+  if [ -n "$ONLY" ] && ! echo "$name" | grep -Eq "$ONLY"; then continue; fi
+  if [ -n "$NEWONLY" ] && grep -q detected_by $d/meta.json; then continue; fi
   tools/try_seed.sh $name "$@" > .cache/seedrun_$name.txt 2>&1; rc=$?
   python3 - "$name" "$rc" <<'PY'
 import json, sys, re
